@@ -41,10 +41,14 @@ def _layout_generator(layout):
             super().__init__(num_rows=rows, num_cols=cols)
 
         def __call__(self, key):
-            return State(agent_position=Position(row=jnp.array(ar, jnp.int32), col=jnp.array(ac, jnp.int32)),
-                         target_position=Position(row=jnp.array(tr, jnp.int32), col=jnp.array(tc, jnp.int32)),
-                         walls=jnp.asarray(walls), action_mask=None, key=key,
-                         step_count=jnp.array(0, jnp.int32))
+            from harness import inject
+            from jumanji.environments.routing.maze.generator import RandomGenerator
+
+            tpl = RandomGenerator(num_rows=rows, num_cols=cols)(key)       # the library's own State, then our fields
+            return inject.state_like(
+                tpl, agent_position=inject.state_like(tpl.agent_position, row=jnp.array(ar, jnp.int32), col=jnp.array(ac, jnp.int32)),
+                target_position=inject.state_like(tpl.target_position, row=jnp.array(tr, jnp.int32), col=jnp.array(tc, jnp.int32)),
+                walls=jnp.asarray(walls), action_mask=None, key=key, step_count=jnp.array(0, jnp.int32))
 
     return LayoutGenerator()
 
@@ -78,10 +82,14 @@ def _injected_generator(cfg):
             super().__init__(num_rows=rows, num_cols=cols)
 
         def __call__(self, key):
+            from jumanji.environments.routing.maze.generator import RandomGenerator
+
             j = key[1] % walls.shape[0]
-            return State(agent_position=Position(row=pos[j, 0], col=pos[j, 1]),
-                         target_position=Position(row=pos[j, 2], col=pos[j, 3]),
-                         walls=walls[j], action_mask=None, key=key, step_count=jnp.array(0, jnp.int32))
+            tpl = RandomGenerator(num_rows=rows, num_cols=cols)(key)
+            return inject.state_like(
+                tpl, agent_position=inject.state_like(tpl.agent_position, row=pos[j, 0], col=pos[j, 1]),
+                target_position=inject.state_like(tpl.target_position, row=pos[j, 2], col=pos[j, 3]),
+                walls=walls[j], action_mask=None, key=key, step_count=jnp.array(0, jnp.int32))
 
     return InjectedGenerator()
 
